@@ -293,8 +293,12 @@ def run_task(task):
                     break
             for (rname, phi) in res.reach:
                 if not out['reach_sat'].get(rname):
-                    if eng.satisfiable(phi) is not None:
-                        out['reach_sat'][rname] = True
+                    try:
+                        if eng.satisfiable(phi) is not None:
+                            out['reach_sat'][rname] = True
+                    except Inconclusive:
+                        # a reachability query needs ONE sat answer over all paths; unknown on this path is not a verdict
+                        out['reach_unknown'] = out.get('reach_unknown', 0) + 1
             if res.diff is not None and do_diff and bad is None:
                 dopts = res.diff[2] if len(res.diff) > 2 else {}
                 model = None
